@@ -11,7 +11,8 @@ ASSUMPTIONS = [
     "pauses its ruleset and then returns ASYNC_PAUSED: there only the C06 clauses are decided, the pause bookkeeping follows the code)",
     "steady_clock is the harness's virtual CLOCK_MONOTONIC (non-decreasing, starts at 1000 s)",
 ]
-TRUSTED = ["scripted plugins + virtual clock in harness/h_engine.cpp"]
+TRUSTED = ["scripted plugins + virtual clock in harness/h_engine.cpp; in main_loop mode the interposed sigtimedwait / pthread_kill that "
+           "turn Oomd::run into N ticks"]
 
 
 def mk_rulesets(rng, nrs=None, small=False):
@@ -72,6 +73,10 @@ def gen(rng, tier, prop):
         sc = {"prop": prop, "rulesets": rss, "ticks": ticks}
         if relaxed:
             sc["relaxed"] = True
+        # a third of the histories are run as iterations of the real main loop (Oomd::run: updateDropIns, updateContext,
+        # Engine::prerun, Engine::runOnce between two sigtimedwait calls) instead of calling the engine directly
+        if rng.random() < 0.33:
+            sc["main_loop"] = True
         yield sc
     if tier == "thorough":
         # exhaustive: 1 ruleset, 1 group, 1 detector, 2 actions, 3 ticks, all return values,
